@@ -8,6 +8,7 @@ VARIANTS = {
     'asan-i64': dict(cc=GCC, cflags=SAN + ['-DXSDK_INDEX_SIZE=64']),
     'tsan':     dict(cc=GCC, cflags=['-O1', '-g', '-fno-omit-frame-pointer', '-fsanitize=thread']),
     'plain':    dict(cc=GCC, cflags=['-O2', '-g']),
+    'cov':      dict(cc=GCC, cflags=['-O0', '-g', '--coverage'], ldflags=['--coverage']),
     'msan':     dict(cc=['clang-14'], cflags=['-O1', '-g', '-fno-omit-frame-pointer', '-fsanitize=memory', '-fsanitize-memory-track-origins']),
 }
 
